@@ -357,7 +357,7 @@ func (c *Ctx) Report(d *Deviation, replay any) bool {
 		b, _ := json.MarshalIndent(wrap, "", " ")
 		_ = os.WriteFile(path, b, 0o644)
 	}
-	if len(c.violations) < 50 {
+	if len(c.violations) < envInt("VERIF_MAXVIOL", 50) {
 		c.violations = append(c.violations, Violation{Sig: sig, Detail: d.Detail, Replay: path})
 	}
 	return true
@@ -541,4 +541,19 @@ func (c *Ctx) ReplayFiles() []string {
 	m, _ := filepath.Glob(filepath.Join(Root(), "replays", c.Prop, "*.json"))
 	sort.Strings(m)
 	return m
+}
+
+// MatchesSituation is Matches restricted to the constraints present in k.Match
+// (used for steering with a copy of the entry whose outcome fields were removed).
+func (k *Known) MatchesSituation(d *Deviation) bool {
+	for f := range k.Match {
+		re := k.re[f]
+		if re == nil {
+			continue
+		}
+		if !re.MatchString(d.Fields[f]) {
+			return false
+		}
+	}
+	return true
 }
